@@ -3,6 +3,9 @@
 import json, sys
 
 CHECKS = {
+ "C04": dict(engine="XS", design="§4 C04", technique="explicit-state BFS over add/remove histories on the real Router; every state compared with a precedence reference and with all other insertion orders of the same frontend set",
+   text="All add/remove histories up to depth 5 (quick) / 6 (thorough) over 16 deliberately colliding frontends (pre/tree/post, exact/wildcard/regex hosts, PREFIX/EQUALS/REGEX paths, method, policy) are executed on the real Router and probed with 72 (host, path, method) requests; the result must follow the documented precedence, never come from a removed frontend, and be identical for every insertion order of the same set.",
+   note="Bounded alphabet (16 frontends, 72 probes); multiple competing regexes (documented as undefined) are not exercised. Reference model is a 60-line precedence function in the harness."),
  "C05": dict(engine="XS", design="§4 C05", technique="explicit-state BFS over the real ConfigState (command alphabet, depth-bounded) with every reached state pushed through all save/replay encodings",
    text="Every configuration reachable within the depth bound from 3 seed states over a ~90-command colliding alphabet is saved and replayed through the in-memory bootstrap, the JSON state file, the protobuf blob and the JSON upgrade payload, under 3 independently hashed instances; bounded-exhaustive, executed on the real code.",
    note="Bounded: alphabet domains (2 addresses, 2 clusters, few frontends/backends/certificates) and depth 3 (quick) / 4 (thorough). Trusts serde/prost only as used by sozu itself; oracle = structural equality of the flattened object view."),
@@ -18,7 +21,6 @@ PLANNED = {
  "C01": "SIM engine (syscall-level simulation of an unmodified worker) not built yet; planned, see DESIGN.md §4 C01",
  "C02": "SIM engine not built yet; planned, see DESIGN.md §4 C02",
  "C03": "SIM/ENUM check not built yet; planned, see DESIGN.md §4 C03",
- "C04": "XS check not built yet; planned, see DESIGN.md §4 C04",
  "C08": "SIM engine not built yet; planned, see DESIGN.md §4 C08",
  "C09": "SIM engine (CommandHub) not built yet; planned, see DESIGN.md §4 C09",
  "C10": "ENUM/SIM check not built yet; planned, see DESIGN.md §4 C10",
